@@ -702,3 +702,113 @@ fn reserved_name_rule(k: u8) {
     kani::cover!(reserved, "a builtin name");
     std::mem::forget(r);
 }
+
+// ---- 9.c member calls: method table, arity and typed arguments per receiver type ---------------------
+/// The documented method table: (arity, argument kind: 0 untyped, 1 string, 2 number).
+fn method_sig(recv: ValueType, field: u8) -> Option<(usize, u8)> {
+    // field: 0 len, 1 find, 2 replace, 3 slice, 4 split, 5 join, 6 push, 7 abs, 8 success, 9 run, 10 nosuch, 11 trim, 12 pop
+    match recv {
+        ValueType::String => match field {
+            0 | 11 => Some((0, 0)),
+            1 | 4 => Some((1, 1)),
+            2 => Some((2, 1)),
+            3 => Some((2, 2)),
+            _ => None,
+        },
+        ValueType::Array => match field {
+            0 | 12 => Some((0, 0)),
+            5 => Some((1, 1)),
+            6 => Some((1, 0)),
+            _ => None,
+        },
+        ValueType::Number => match field {
+            7 => Some((0, 0)),
+            _ => None,
+        },
+        ValueType::ProcessResult => match field {
+            8 => Some((0, 0)),
+            _ => None,
+        },
+        ValueType::ProcessCommand => match field {
+            9 => Some((0, 0)),
+            _ => None,
+        },
+        _ => None,
+    }
+}
+
+fn member_call_rule(field: u8, nargs: usize) {
+    new_resolver!(r);
+    node!(obj: Expr<'static> = Expr::Null(sp()));
+    node!(a0: Expr<'static> = Expr::Null(sp()));
+    node!(a1: Expr<'static> = Expr::Null(sp()));
+    node!(args0: [ExprRef<'static>; 0] = []);
+    node!(args1: [ExprRef<'static>; 1] = [a0]);
+    node!(args2: [ExprRef<'static>; 2] = [a0, a1]);
+    node!(al0: ArgList<'static> = ArgList { args: &args0[..] });
+    node!(al1: ArgList<'static> = ArgList { args: &args1[..] });
+    node!(al2: ArgList<'static> = ArgList { args: &args2[..] });
+    let al: &'static ArgList<'static> = match nargs { 0 => al0, 1 => al1, _ => al2 };
+    let name: &'static str = match field {
+        0 => "len", 1 => "find", 2 => "replace", 3 => "slice", 4 => "split", 5 => "join", 6 => "push", 7 => "abs",
+        8 => "success", 9 => "run", 11 => "trim", 12 => "pop", _ => "nosuch",
+    };
+    node!(callee: Expr<'static> = Expr::Member { object: obj, field: name, field_span: sp(), span: sp() });
+    node!(call: Expr<'static> = Expr::Call { callee, args: al, span: sp() });
+    let (recv, argt) = (any_type(), any_type());
+    // builder methods of process commands need an assignable receiver: a separate rule, left out here
+    kani::assume(recv != Some(ValueType::ProcessCommand) || field == 9 || field == 10);
+    unsafe {
+        TL = recv;
+        TR = argt;
+        LHS = (obj as *const Expr<'static>).cast::<u8>();
+    }
+    reset();
+    // the copy of check_expr generated from the current source; its recursive calls (receiver,
+    // arguments) go to the counting stub, so the member-call rules are run exactly once
+    r.verif_outer_check_expr(call);
+    assert!(unsafe { EXPR_CALLS } == 1 + nargs, "sub-expressions: the receiver and every argument are checked");
+    let mask = unsafe { ERR_MASK };
+    let want = match recv {
+        None | Some(ValueType::Dynamic) => 0, // unknown / dynamic receiver: decided at run time
+        Some(t) => match method_sig(t, field) {
+            None => 8, // no such method for this type
+            Some((arity, kind)) => {
+                let wrong_arg = nargs >= 1 && kind != 0 && match argt {
+                    None | Some(ValueType::Dynamic) => false,
+                    Some(a) => a != if kind == 1 { ValueType::String } else { ValueType::Number },
+                };
+                (if arity != nargs { 16 } else { 0 }) | (if wrong_arg { 4 } else { 0 })
+            }
+        },
+    };
+    assert!(mask == want, "method-rule: a member call is rejected exactly for an unknown method, a wrong argument count or a statically wrong argument type");
+    // an instance whose argument count matches no receiver's method of that name has no accepted call
+    let receivers = [ValueType::Number, ValueType::String, ValueType::Array, ValueType::ProcessCommand, ValueType::ProcessResult];
+    let mut acceptable = false;
+    let mut i = 0;
+    while i < receivers.len() {
+        if let Some((arity, _)) = method_sig(receivers[i], field) {
+            acceptable = acceptable || arity == nargs;
+        }
+        i += 1;
+    }
+    kani::cover!(!acceptable || (want == 0 && recv.is_some() && recv != Some(ValueType::Dynamic)), "an accepted method call on a statically known receiver");
+    kani::cover!(acceptable || want & 16 != 0 || field == 10, "wrong argument count");
+    kani::cover!(want == 8, "unknown method");
+    kani::cover!(want & 4 != 0 || method_kind_untyped(field) || nargs == 0, "wrong argument type");
+    std::mem::forget(r);
+}
+fn method_kind_untyped(field: u8) -> bool {
+    !matches!(field, 1 | 2 | 3 | 4 | 5)
+}
+macro_rules! member_call_rule {
+    ($name:ident, $field:literal, $nargs:literal) => {
+        res_proof! { reserve_960;
+            #[kani::stub(crate::resolver::Resolver::infer_expr_type, crate::resolver::Resolver::verif_infer_any)]
+            #[kani::stub(crate::resolver::Resolver::check_expr, crate::resolver::Resolver::verif_check_expr_count)]
+            #[kani::unwind(16)]
+            fn $name() { member_call_rule($field, $nargs) }
+        }
+    };
+}
